@@ -67,7 +67,7 @@ Proof.
   - destruct (Z.eqb (my p) 0 && (0 <? T s)) eqn:E; [|discriminate].
     apply andb_true_iff in E as [E1 E2]. apply Z.eqb_eq in E1.
     intro H. inversion H; subst; cbn. rewrite (sum_upd _ _ _ _ F). unfold val; cbn. lia.
-  - destruct (Z.eqb (my p) 0) eqn:E; [|discriminate]. apply Z.eqb_eq in E.
+  - destruct (Z.eqb (my p) 0 && Z.eqb (ch p) 0) eqn:E; [|discriminate]. apply andb_true_iff in E as [E _]. apply Z.eqb_eq in E.
     intro H. inversion H; subst; cbn. rewrite (sum_upd _ _ _ _ F). unfold val; cbn. lia.
   - destruct ((0 <? C s) && (0 <? J s)); [|discriminate].
     intro H. inversion H; subst; cbn. lia.
@@ -141,7 +141,7 @@ Proof.
     apply andb_true_iff in E as [E1 E2]. apply Z.ltb_lt in E2.
     intro H. inversion H; subst; unfold set_procs; cbn [T C procs J L procs_ok]. repeat split; try lia.
     apply procs_ok_upd; [exact HP|cbn [my ch]; lia].
-  - destruct (Z.eqb (my p) 0) eqn:E; [|discriminate].
+  - destruct (Z.eqb (my p) 0 && Z.eqb (ch p) 0) eqn:E; [|discriminate]. apply andb_true_iff in E as [E _].
     intro H. inversion H; subst; unfold set_procs; cbn [T C procs J L procs_ok]. repeat split; try lia.
     apply procs_ok_upd; [exact HP|cbn [my ch]; lia].
   - destruct ((0 <? C s) && (0 <? J s)) eqn:E; [|discriminate].
